@@ -25,7 +25,7 @@ class E:
 
 
 class Schema:
-    def __init__(self, name, entries, domain_skips=(), unknown_after_last='ignored'):
+    def __init__(self, name, entries, domain_skips=(), unknown_after_last='ignored', requires=()):
         self.name, self.entries = name, entries
         self.bytag = {e.tag: e for e in entries}
         assert len(self.bytag) == len(entries)
@@ -36,6 +36,7 @@ class Schema:
             if e.least:
                 self.least.setdefault(e.least, []).append(e.tag)
         self.domain_skips = list(domain_skips)
+        self.requires = list(requires)      # (name, predicate over the child counts): an element that needs another one to be present
         self.unknown_after_last = unknown_after_last
         self.alphabet = [e.tag for e in entries]
 
@@ -78,8 +79,8 @@ schema('signature',
        E(0x801, COMP, 1, N, sub='aggr_chain', name='aggr_chain'), E(0x802, COMP, 0, 1, sub='cal_chain', name='cal_chain'),
        E(0x803, COMP, 0, 1, sub='publication_record', excl='anchor', name='pub_rec'), E(0x804, OOD, 0, 1, name='aggr_auth_rec'),
        E(0x805, COMP, 0, 1, sub='cal_auth_rec', excl='anchor', name='cal_auth_rec'), E(0x806, COMP, 0, 1, sub='rfc3161', name='rfc3161'),
-       # structural post-check of the SDK that the property text does not state: not judged
-       domain_skips=[('sig:anchor-without-calendar', lambda c: (c.get(0x803, 0) or c.get(0x805, 0)) and not c.get(0x802, 0))])
+       # a publication record or calendar authentication record anchors the calendar chain: without the chain it is a signature no schema allows
+       requires=[('anchor-without-calendar', lambda c: (c.get(0x803, 0) or c.get(0x805, 0)) and not c.get(0x802, 0))])
 
 schema('pdu_header', E(0x01, UTF8, 1, 1, name='login_id'), E(0x02, INT, 0, 1, name='instance_id'), E(0x03, INT, 0, 1, name='message_id'))
 schema('error_payload', E(0x04, INT, 1, 1, name='status'), E(0x05, UTF8, 0, 1, name='error_message'))
@@ -314,6 +315,9 @@ class Acceptor:
         for name, fn in S.domain_skips:
             if fn(cnt):
                 skp.append(name)
+        for name, fn in S.requires:
+            if fn(cnt):
+                rej.append(name)
         return rej, skp
 
     def root(self, kind, version, raw):
